@@ -52,9 +52,9 @@ const (
 //	    as Go nil and returnValue.Type() in executeLuaForCanary (ingress.go, custom_network_provider.go) panics.
 //	    Input class excluded: xpcall with a message handler that raises an error.
 var knownOpen = map[string]bool{
-	sigNilReturn:    true,
-	sigFileLeak:     true,
-	sigLoaders:      true,
+	sigNilReturn:    false, // repaired by a "fix:" commit in /repo, see /verif/known_findings.json
+	sigFileLeak:     false, // repaired by a "fix:" commit in /repo, see /verif/known_findings.json
+	sigLoaders:      false, // repaired by a "fix:" commit in /repo, see /verif/known_findings.json
 	sigPatternHang:  true,
 	sigTailcallSlow: true,
 }
